@@ -164,7 +164,8 @@ pub fn check_note(l0: &Lib, ext: &str, key: &str) -> Option<String> {
                     before.extend(c10::payloads(target_text, &tdir));
                     let after = c10::payloads(l1.get(key).map(|s| s.as_str()).unwrap_or(""), &dir);
                     if sorted(after.clone()) != sorted(before.clone()) {
-                        if D10_OPEN.load(Ordering::Relaxed) && (target_text.contains("\n----") || text0.contains("\n----") || target_text.starts_with("----")) {
+                        let has_rule_or_table = |t: &str| t.contains("----") || t.starts_with('|') || t.contains("\n|") || t.contains("> |") || t.contains("  |");
+                        if D10_OPEN.load(Ordering::Relaxed) && (has_rule_or_table(target_text) || has_rule_or_table(&text0)) {
                             continue;
                         }
                         return Some(format!("{} at line {} (target {:?}): content not conserved: {}", kind, line, target, multiset_diff(&before, &after)));
